@@ -91,7 +91,17 @@ def lib_interleaved(text):
     return a.close()
 
 
-ROUTES = {"tb": lib_tb, "tree": lib_tree, "tree-reused": lib_tree_reused, "interleaved": lib_interleaved}
+V2HDR = '<?xml version="1.0" encoding="UTF-8" standalone="no"?>\r\n<?OFX OFXHEADER="200" VERSION="220" SECURITY="NONE" OLDFILEUID="NONE" NEWFILEUID="NONE"?>\r\n'
+
+
+def lib_tree_v2(text):
+    """The file parser again, with a version-2 header in front of the same body (an XML fast path would only be taken here)."""
+    from ofxtools.Parser import OFXTree
+
+    return OFXTree().parse(io.BytesIO((V2HDR + text).encode("utf_8")))
+
+
+ROUTES = {"tb": lib_tb, "tree": lib_tree, "tree-v2": lib_tree_v2, "tree-reused": lib_tree_reused, "interleaved": lib_interleaved}
 HAS_TAG = re.compile(r"<[^<>]+>")
 
 AMBIGUOUS_CDATA = re.compile(r"<([A-Z0-9._]+)><!\[CDATA\[(?:(?!\]\]>).)*\]\]>\s+</\1>", re.S)
@@ -148,7 +158,7 @@ def judge(ctx, text, fault, via_tree=False):
         want, ill = None, str(e)
     via = via_tree if isinstance(via_tree, str) else ("tree" if via_tree else "tb")
     fn = ROUTES[via]
-    ctx.count({"tb": "via_TreeBuilder", "tree": "via_OFXTree_parse", "tree-reused": "via_reused_OFXTree", "interleaved": "via_interleaved_builders"}[via])
+    ctx.count({"tb": "via_TreeBuilder", "tree": "via_OFXTree_parse", "tree-v2": "via_OFXTree_parse_v2_header", "tree-reused": "via_reused_OFXTree", "interleaved": "via_interleaved_builders"}[via])
     case = {"text": text, "fault": fault, "via_tree": via}
     try:
         root = fn(text)
@@ -347,7 +357,7 @@ def run_shard(ctx):
         for fi, (text, fault) in enumerate(flist):
             if text == body:
                 continue
-            judge(ctx, text, fault, via_tree=("tree" if fi % 7 == 0 else "tree-reused" if fi % 7 == 3 else "interleaved" if fi % 7 == 5 else "tb"))
+            judge(ctx, text, fault, via_tree=("tree" if fi % 7 == 0 else "tree-v2" if fi % 7 == 1 else "tree-reused" if fi % 7 == 3 else "interleaved" if fi % 7 == 5 else "tb"))
             if fi % 5 == 1:
                 judge_commented(ctx, text, fault, rng)
             ctx.distinct(text)
